@@ -110,10 +110,17 @@ Sel selOf(Rng & r, size_t n, unsigned starNum = 1, unsigned starDen = 4) {
 std::vector<std::string> mkNames(Rng & r, size_t n, const char * stem) {
     static const std::vector<const char*> words = {"left","right","listen","open","good","bad","north","south","east","west","hungry","full","x","y","z","w","up","down","stay","go"};
     std::vector<std::string> out;
-    int style = (int)r.below(3);
+    int style = (int)r.below(n >= 2 ? 6 : 3);
+    std::printf("#stat name_style%d 1\n", style);
     for (size_t i = 0; i < n; ++i) {
         std::string nm;
-        if (style == 0) nm = std::string(stem) + std::to_string(i);
+        // 3: names that are numbers, permuted (the name `1` is index 0 …): the name table must be consulted BEFORE the number reading
+        // 4: names that start with digits (`1st`): a number-first resolution would read the digit prefix
+        // 5: names that are proper prefixes of each other (`s`, `ss`, `sss`) and of keywords / table letters
+        if (style == 3) nm = std::to_string((i + 1) % n);
+        else if (style == 4) nm = std::to_string((i * 7 + 3) % 10) + (i % 2 ? "th" : "st") + std::string(i / 2, 'x');
+        else if (style == 5) nm = (stem[0] == 's' ? std::string("T") : stem[0] == 'a' ? std::string("O") : std::string("R")) + std::string(i, 's');
+        else if (style == 0) nm = std::string(stem) + std::to_string(i);
         else if (style == 1) nm = std::string(1, (char)('a' + i)) + (r.coin() ? "-" : "_") + stem;
         else nm = std::string(words[(r.below(4) * 5 + i) % words.size()]) + std::to_string(i * 7 % 10);
         out.push_back(nm);
@@ -199,6 +206,8 @@ struct Renderer {
         if (mutHere && mut.cls == "index_out_of_range") return std::to_string(max + (size_t)(mut.arg % 2));
         if (mutHere && mut.cls == "trailing_garbage") { static const char * g[] = {"x", "abc", ".5", "e", "\t1"}; return (s.all ? std::string("0") : std::to_string(s.i)) + g[mut.arg / 7 % 5]; }
         if (s.all) return "*";
+        // a name that looks like a number shadows that number: then the index must be written by name
+        if (!names.empty() && std::find(names.begin(), names.end(), std::to_string(s.i)) != names.end()) return names[s.i];
         if (!names.empty() && r.coin(2, 3)) return names[s.i];
         return std::to_string(s.i);
     }
@@ -424,6 +433,98 @@ void runReuse(bool pomdpA, const std::string & textA, bool pomdpB, const std::st
     L.emit();
 }
 
+// ------------------------------------------------------------------ canonical printer (mirrors lean/AITB/Model/CassandraPrint.lean)
+// The driver recomputes the text from the AST with the Lean printer and compares byte for byte, so this renderer is not trusted;
+// `printFile_parses` (Props.C18n) proves that the printed text of ANY such AST parses to the tables its statements define.
+struct CDec { bool neg = false; unsigned long n = 0; unsigned e = 0; };
+struct CSel { bool all = false; size_t i = 0; };
+struct CStmt { char tbl = 'T'; CSel a, d1, d3; int form = 0; CDec v; std::vector<CDec> vs; std::vector<std::vector<CDec>> rows; };  // form 0 entry, 1 row next-line, 2 row inline, 3 matrix
+struct CFile { bool pomdp = false; size_t S = 1, A = 1, O = 0; std::vector<CStmt> stmts; };
+
+std::string printDec(const CDec & d) {
+    std::string ds = std::to_string(d.n);
+    if (ds.size() < d.e + 1) ds = std::string(d.e + 1 - ds.size(), '0') + ds;
+    return (d.neg ? "-" : "") + ds.substr(0, ds.size() - d.e) + "." + ds.substr(ds.size() - d.e);
+}
+std::string printSel(const CSel & s) { return s.all ? "*" : std::to_string(s.i); }
+std::string printVec(const std::vector<CDec> & v) { std::string o; for (size_t i = 0; i < v.size(); ++i) { if (i) o += " "; o += printDec(v[i]); } return o; }
+std::string printFile(const CFile & f) {
+    std::string t = "states:" + std::to_string(f.S) + "\nactions:" + std::to_string(f.A) + "\nobservations:" + std::to_string(f.O) + "\n";
+    for (auto & s : f.stmts) {
+        std::string h(1, s.tbl); h += ": " + printSel(s.a);
+        if (s.form == 3) { t += h + "\n"; for (auto & r : s.rows) t += printVec(r) + "\n"; continue; }
+        h += " : " + printSel(s.d1);
+        if (s.form == 0) { h += " : " + printSel(s.d3); if (s.tbl == 'R') h += " : *"; t += h + " " + printDec(s.v) + "\n"; }
+        else if (s.form == 2) { for (auto & v : s.vs) h += " " + printDec(v); t += h + "\n"; }
+        else { t += h + "\n" + printVec(s.vs) + "\n"; }
+    }
+    return t;
+}
+CDec genDec(Rng & r, bool allowNeg) {
+    CDec d; d.e = (unsigned)r.below(7);
+    switch (r.below(6)) {
+        case 0: d.n = 0; break;
+        case 1: { unsigned long p = 1; for (unsigned i = 0; i < d.e; ++i) p *= 10; d.n = p; break; }                       // exactly 1
+        case 2: d.n = r.below(1000000000000ULL); break;                                                                  // large magnitudes
+        default: { unsigned long p = 1; for (unsigned i = 0; i < d.e; ++i) p *= 10; d.n = r.below(p + 1); break; }      // within [0,1]
+    }
+    d.neg = allowNeg && d.n != 0 && r.coin(1, 3);
+    return d;
+}
+CSel genSel(Rng & r, size_t n, unsigned num = 1, unsigned den = 4) { CSel s; if (r.coin(num, den)) s.all = true; else s.i = r.below(n); return s; }
+CFile genCanon(Rng & r) {
+    CFile f; f.pomdp = r.coin();
+    f.S = 1 + r.below(5); f.A = 1 + r.below(4); f.O = f.pomdp ? 1 + r.below(4) : (r.coin(1, 3) ? r.below(3) : 0);
+    if (r.coin(1, 8)) { f.S = 11 + r.below(3); f.A = 1; if (f.pomdp) f.O = 1; }     // two-digit indices
+    auto vec = [&](size_t n, bool neg) { std::vector<CDec> v; for (size_t i = 0; i < n; ++i) v.push_back(genDec(r, neg)); return v; };
+    if (r.coin(1, 3)) {
+        // a complete model in one form per table (the shape of `printModel`)
+        auto table = [&](char c, size_t D1, size_t D3, int form) {
+            for (size_t a = 0; a < f.A; ++a) {
+                if (form == 3) { CStmt s; s.tbl = c; s.form = 3; s.a.i = a; for (size_t d = 0; d < D1; ++d) s.rows.push_back(vec(D3, false)); f.stmts.push_back(s); }
+                else for (size_t d = 0; d < D1; ++d) {
+                    if (form == 0) for (size_t e = 0; e < D3; ++e) { CStmt s; s.tbl = c; s.form = 0; s.a.i = a; s.d1.i = d; s.d3.i = e; s.v = genDec(r, c == 'R'); f.stmts.push_back(s); }
+                    else { CStmt s; s.tbl = c; s.form = form; s.a.i = a; s.d1.i = d; s.vs = vec(D3, false); f.stmts.push_back(s); }
+                }
+            }
+        };
+        table('T', f.S, f.S, (int)r.below(4));
+        if (f.pomdp) table('O', f.S, f.O, (int)r.below(4));
+        table('R', f.S, f.S, 0);
+        std::puts("#stat canon_complete_model 1");
+    } else {
+        size_t n = r.below(9);
+        for (size_t j = 0; j < n; ++j) {
+            CStmt s; int t = (int)r.below(f.pomdp ? 3 : 2); s.tbl = t == 0 ? 'T' : t == 1 ? 'R' : 'O';
+            size_t D3 = s.tbl == 'O' ? f.O : f.S;
+            s.a = genSel(r, f.A); s.d1 = genSel(r, f.S);
+            s.form = s.tbl == 'R' ? 0 : (int)r.below(4);
+            if (s.form == 0) { s.d3 = genSel(r, D3, 1, 3); s.v = genDec(r, s.tbl == 'R'); }
+            else if (s.form == 3) { for (size_t d = 0; d < f.S; ++d) s.rows.push_back(vec(D3, false)); }
+            else s.vs = vec(D3, false);
+            f.stmts.push_back(s);
+        }
+        std::puts("#stat canon_statement_list 1");
+    }
+    return f;
+}
+void emitDec(Line & L, const CDec & d) { L << (size_t)(d.neg ? 1 : 0) << (size_t)d.n << (size_t)d.e; }
+void runCanon(const CFile & f) {
+    const std::string text = printFile(f);
+    Line L; L << "C18" << "canon" << (f.pomdp ? "pomdp" : "mdp") << hex(text) << f.S << f.A << f.O << f.stmts.size();
+    for (auto & s : f.stmts) {
+        std::printf("#stat canon_form_%c%d 1\n", s.tbl, s.form);
+        L << std::string(1, s.tbl) << printSel(s.a);
+        if (s.form == 3) { L << "*" << "m" << s.rows.size(); for (auto & row : s.rows) { L << row.size(); for (auto & v : row) emitDec(L, v); } }
+        else if (s.form == 0) { L << printSel(s.d1) << "e" << printSel(s.d3); emitDec(L, s.v); }
+        else { L << printSel(s.d1) << (s.form == 2 ? "ri" : "rn") << s.vs.size(); for (auto & v : s.vs) emitDec(L, v); }
+    }
+    L << "|";
+    AIToolbox::CassandraParser p;
+    emitParse(L, p, f.pomdp, text);
+    L.emit();
+}
+
 const std::function<void(Line&)> ANY = [](Line & L) { L << "any"; };
 std::function<void(Line&)> REJ(const std::string & cls) { return [cls](Line & L) { L << "rej" << cls; }; }
 
@@ -463,7 +564,7 @@ const char * CORNER = "# corner.MDP 3x3\n\nvalues: rewards\nstates: 4\nactions: 
 const char * EJS = "# ejs4.POMDP\n\nvalues: rewards\nstates: 3\nactions: 2\nobservations: 2\n\nT : 0\n0.1 0.1 0.8\n0.2 0.5 0.3\n0.7 0.1 0.2\n\nT : 1\n0.1 0.8 0.1\n0.7 0.1 0.2\n0.1 0.9 0.0\n\n"
     "O : 0\n0.7 0.3\n0.1 0.9\n0.4 0.6\n\nO : 1\n0.2 0.8\n0.4 0.6\n0.3 0.7\n\nR : 0 : 0 : * : * -1.0\nR : 0 : 1 : * : *  0.0\nR : 1 : 1 : * : * -1.0\n";
 
-const long NFIXED = 21;
+const long NFIXED = 22;
 
 void fixedCase(long idx) {
     switch (idx) {
@@ -498,6 +599,7 @@ void fixedCase(long idx) {
         case 17: runText(false, "states: 2\n", REJ("missing_sizes")); break;                 // sizes only partly declared, no statements at all
         case 18: runText(false, "actions: 2\ndiscount: 0.5\n", REJ("missing_sizes")); break;
         case 19: runText(true, "states: 1\nactions: 1\n", REJ("missing_sizes")); break;
+        case 20: runText(true, "states: 1\nactions: 1\nobservations: 4611686018427387904\nT: 0 : 0 : 0 1\nO: 0 : 0 : 0 1\n", REJ("size_overflow"), true); break;  // only the SECOND extent check (S*A*O) rejects this
         default: runText(false, "states: 18446744073709551616\nactions: 1\nT: 0 : 0 : 0 1\n", ANY); break; // stoul out_of_range is swallowed: one state named "1844…"
     }
 }
@@ -547,7 +649,9 @@ void verif_case(Rng & rng, long idx, const std::string &) {
             Stmt s; s.tbl = 'T'; s.form = 1 + (int)rng.below(2); s.a = selOf(rng, f.A); s.d1 = selOf(rng, f.S);
             s.vs = dist(rng, f.S, false);
             size_t j = rng.below(f.S);
-            switch (rng.below(4)) { case 0: s.vs[j] = mkVal(s.vs[j].v >= 0.5 ? "0.25" : "0.75"); if (f.S == 1) s.vs[j] = mkVal("0.75"); break;
+            switch (rng.below(f.S >= 2 ? 5 : 4)) {
+                                    case 4: { size_t j2 = (j + 1) % f.S; for (auto & x : s.vs) x = mkVal("0"); s.vs[j] = mkVal("1.25"); s.vs[j2] = mkVal("-0.25"); std::puts("#stat invalid_probability_negative_compensated 1"); break; }  // sums to 1: only the sign test rejects it
+                                    case 0: s.vs[j] = mkVal(s.vs[j].v >= 0.5 ? "0.25" : "0.75"); if (f.S == 1) s.vs[j] = mkVal("0.75"); break;
                                     case 1: s.vs[j] = mkVal("-0.25"); break; case 2: s.vs[j] = mkVal("1.5"); break; default: s.vs[j] = mkVal(rng.coin() ? "nan" : "inf"); }
             f.stmts.push_back(s); cand = {};
         }
@@ -578,6 +682,10 @@ void verif_case(Rng & rng, long idx, const std::string &) {
         std::string textB = RB.render();
         std::printf("#stat reuse_mode%d 1\n", mode);
         runReuse(a.pomdp, textA, rng.coin(4, 5) ? b.pomdp : false, textB);
+    } else if (stream == 10) {                         // canonical printer: text recomputed by the Lean printer, tables = meaning of the AST
+        CFile f = genCanon(rng);
+        std::printf("#stat canon_sizes_%s 1\n", (f.S == f.A || f.S == f.O || f.A == f.O) ? "some_equal" : "all_different");
+        runCanon(f);
     } else if (stream == 12) {                         // garbage: no structure at all, long lines, arbitrary bytes (memory clause)
         std::string text;
         static const std::string al = "TOR:* \n\t0123456789.-+eabcstdisvluonx#";
